@@ -192,7 +192,8 @@ def build(case):
             used = {ids[j] for j in range(i) if par[j] == par[i]}
             for _ in range(60):
                 lab = rng.choice(["a", "b", "c"])
-                did = rng.choice([None, "X", "Y", 5, 6, lab + "_id", 0, "", "a", "b"])  # "a"/"b": an id equal to another node's *data*
+                did = rng.choice([None, "X", "Y", 5, 6, lab + "_id", 0, "", "a", "b",  # "a"/"b": an id equal to another node's *data*
+                                  2**60 + 7, -(2**55), "1541815603606036480", "007", "-12", 1.5])  # big ints, numeric text, a float: ids keep value *and* type
                 eff = hash(lab) if did is None else did
                 if eff not in used:
                     break
@@ -222,7 +223,7 @@ def shape(t):
             except TypeError:
                 default = False
             g = groups.setdefault(did, len(groups))
-            out.append((dkey(c.data), "H" if default else did, g, rec(list(c.children))))
+            out.append((dkey(c.data), "H" if default else (type(did).__name__, did), g, rec(list(c.children))))
         return out
 
     return rec(list(t.children))
